@@ -24,6 +24,8 @@ pub enum Ev {
         /// None = ok, Some(id) = error with that id
         err: Option<u32>,
         values: usize,
+        /// what the device returned (kept only when the log keeps events)
+        data: Option<Vec<Vec<Word>>>,
     },
     /// S2: program fetched
     Fetch { program: CA },
@@ -69,7 +71,7 @@ pub fn push(ev: Ev) {
     LOG.with(|l| {
         let mut l = l.borrow_mut();
         match &ev {
-            Ev::Read { view, contract, key, n, err, values } => {
+            Ev::Read { view, contract, key, n, err, values, .. } => {
                 l.reads += 1;
                 let mut h = l.hash;
                 mix(&mut h, 1 + *view as u64);
@@ -110,8 +112,14 @@ pub fn push(ev: Ev) {
         }
         if l.keep {
             l.events.push(ev);
+        } else if let Ev::Read { .. } = ev {
+            // dropped
         }
     });
+}
+
+pub fn keeping() -> bool {
+    LOG.with(|l| l.borrow().keep)
 }
 
 pub fn count_op() {
